@@ -423,7 +423,7 @@ def gen_history():
 def run_for(prop, tier, logs):
     """-> list of dict(name, ok, verified, errors, wall, smt_ms, stderr, dropped, assumed)"""
     res = []
-    gen = os.path.join(VERIF, "logs", prop, "verus")
+    gen = os.path.join(logs, "verus")
     os.makedirs(gen, exist_ok=True)
     if prop in LAYOUT_PROPS:
         text, parts, dropped, assumed = extract_layout()
